@@ -104,6 +104,7 @@ cls_of = z3.Function("cls", I, I)
 role_of = z3.Function("role", I, I)
 owner_of = z3.Function("owner", I, I)
 slot_of = z3.Function("slot", I, I)
+NNODES = z3.Int("NumberOfServiceNodes")      # network.number_of_nodes (ghost constant of the configuration)
 StrOf = z3.Function("StrOf", Val, I)          # str(x) as an atom id
 Intended = z3.Function("Intended", R, R)      # Decimal(str(float x))  -- shortest-repr decimal of x
 BinExp = z3.Function("BinExp", R, R)          # Decimal(float x)       -- exact binary expansion of x
@@ -121,6 +122,8 @@ class Spec:
         self.lazy_ok = set()    # (cls, name) fields whose presence is guaranteed by an invariant we assume (listed)
         self.fn_ids = {}        # known function name -> id
         self.macros = {}        # spec macro name -> lambda source text
+        self.total_dicts = set()   # dict kinds assumed total over the keys they are indexed with (I-CFG)
+        self.per_node_lists = set()  # list kinds assumed to have exactly one entry per service node (I-CFG)
 
     def atom(self, s):
         if s not in self.strings:
@@ -375,8 +378,9 @@ class Executor:
         if k == "gen":
             alive = self.heap_get(st, "$alive")
             return z3.And(alive[term], cls_of(term) == self.cid("GEN"))
-        if k == "date":      # False ("no date") or a number
-            return z3.Or(term == Val.boolv(False), smt.is_number(term))
+        if k == "date":      # False ("no date") or a date / duration (never True)
+            return z3.Or(term == Val.boolv(False), Val.is_intv(term), Val.is_realv(term), Val.is_pinf(term),
+                         Val.is_decv(term), Val.is_dpinf(term))
         if k == "num":
             return smt.is_number(term)
         if k == "real":
@@ -623,6 +627,11 @@ class Executor:
             x = z3.Const(f"x!{next(_uid)}", Val)
             st.add_fact(smt.forall([x], z3.Implies(Contains(c, x), At(c, IndexOf(c, x)) == x), [Contains(c, x)]))
         c = names[key]
+        if hint is not None and hint.kind == "list" and hint.name in self.S.per_node_lists and ("pn", c.get_id()) not in names:
+            names[("pn", c.get_id())] = True
+            self.assumed_used.add("I-CFG: per-node configuration lists (" + ", ".join(sorted(self.S.per_node_lists)) +
+                                  ") have exactly one entry per service node")
+            st.add_fact(Len(c) == NNODES)
         # element typing of a list of a declared kind, available from membership as well as from position
         ety = None
         if hint is not None and hint.kind == "list":
@@ -742,7 +751,7 @@ class Executor:
         alive = self.heap_get(st, "$alive")
         st.assume(z3.Not(alive[r]))
         st.assume(cls_of(r) == self.cid(clsname))
-        self.heap_set(st, "$alive", z3.Store(alive, r, True), fresh_obj=True)
+        self.heap_set(st, "$alive", z3.Store(alive, r, True), fresh_obj=True, hint=clsname)
         return r
 
     def new_list(self, st, seqterm, ety=None, kind="Local"):
@@ -1309,7 +1318,12 @@ class Executor:
             key = self.to_val(idx)
             dh = self.heap_get(st, "$dh")
             dv = self.heap_get(st, "$dv")
-            self.oblige(st, "def", "dict-key-present", node, dh[base.t][key])
+            if base.h.name in self.S.total_dicts:
+                self.assumed_used.add("I-CFG: configuration dictionaries (" + ", ".join(sorted(self.S.total_dicts)) +
+                                      ") have an entry for every customer class / node they are indexed with")
+                self.assume(st, dh[base.t][key])
+            else:
+                self.oblige(st, "def", "dict-key-present", node, dh[base.t][key])
             kd = self.S.kinds.get(base.h.name)
             vty = kd[1] if isinstance(kd, tuple) else None
             term = dv[base.t][key]
